@@ -229,6 +229,9 @@ pub fn exec(op: &str, a: &[String]) -> Option<Reply> {
         ("o.c25.aton", [n]) => {
             return Some(there_back(&Value::Integer(n.parse().ok()?), |v| call("ip_ntoa", v, &[], ""), |v| call("ip_aton", v, &[], "")));
         }
+        ("o.c25.ntoa", [t]) => {
+            return Some(there_back(&Value::Bytes(unhex(t)?.into()), |v| call("ip_aton", v, &[], ""), |v| call("ip_ntoa", v, &[], "")));
+        }
         ("o.c25.pton", [b]) => {
             return Some(there_back(&Value::Bytes(unhex(b)?.into()), |v| call("ip_ntop", v, &[], ""), |v| call("ip_pton", v, &[], "")));
         }
@@ -324,7 +327,7 @@ fn gen_int(rng: &mut Rng) -> i64 {
 
 const DIGIT_ALPHABET: &[u8] = b"00112789abfzgAFZG+-_ .xob";
 
-fn gen_digit_string(rng: &mut Rng) -> Vec<u8> {
+fn gen_digit_string(rng: &mut Rng) -> (Vec<u8>, i64) {
     let mut out = Vec::new();
     match rng.below(6) {
         0 => out.extend_from_slice(b"0x"),
@@ -358,7 +361,7 @@ fn gen_digit_string(rng: &mut Rng) -> Vec<u8> {
         3 => out.push(b' '),
         _ => {}
     }
-    out
+    (out, radix as i64)
 }
 
 fn gen_base(rng: &mut Rng) -> String {
@@ -432,8 +435,9 @@ fn gen_ints(sink: &mut Sink, rng: &mut Rng, n: u64) {
     }
     sink.emit("c25.parse_int", &[s(&int(5)), "-".into()]);
     for _ in 0..2 * n {
-        let d = gen_digit_string(rng);
-        let r = sink.emit("c25.parse_int", &[s(&bytes(&d)), gen_base(rng)]);
+        let (d, radix) = gen_digit_string(rng);
+        let base = if rng.chance(2, 3) { s(&int(radix)) } else { gen_base(rng) };
+        let r = sink.emit("c25.parse_int", &[s(&bytes(&d)), base]);
         sink.count(if r.is_some_and(|r| r.reply.starts_with("ok")) { "c25:parse_int_ok" } else { "c25:parse_int_err" });
     }
 }
@@ -715,6 +719,9 @@ fn gen_ip(sink: &mut Sink, rng: &mut Rng, n: u64) {
         let t = Value::from(gen_v4_text(rng));
         let r = sink.emit("c25.ip_aton", &[s(&t)]);
         sink.count(if r.is_some_and(|r| r.reply.starts_with("ok")) { "c25:aton_text_ok" } else { "c25:aton_text_err" });
+        if let Value::Bytes(tb) = &t {
+            sink.emit("o.c25.ntoa", &[hex(tb)]);
+        }
         sink.emit("c25.ip_pton", &[s(&t)]);
         sink.emit("c25.ipv6_to_ipv4", &[s(&t)]);
         sink.emit("c25.ip_to_ipv6", &[s(&t)]);
